@@ -29,6 +29,8 @@ RULE = (
     "annotated fields with plain / field(default|default_factory|init|kw_only|repr) values, InitVar, ClassVar (subscripted and bare), "
     "KW_ONLY marker, un-annotated attributes, properties, methods, hand-written __init__; decorator forms @dataclass / @dataclass() / "
     "@dataclass(init=, kw_only=, other flag); 4 import forms; PEP 563 on/off; names from a pool of 5 so that overrides are common. "
+    "One case in seven is a diamond of four dataclasses (C0 <- C1, C0 <- C2, C3(C2, C1)); two in seven are a history: two variants of a same-named module loaded one after the other (separate loaders and collections) "
+    "through ONE griffe.load_extensions() result, each judged against CPython. "
     "Only modules CPython accepts are evaluated. non-trivial = a dataclass at depth >=2 overriding an inherited field, or keyword-only "
     "interplay (flag / marker / field(kw_only)) in a dataclass with >=2 constructor fields; distinct = distinct module source"
 )
@@ -115,13 +117,37 @@ def fmt(params) -> str:
 
 # ----------------------------------------------------------------------------- the property on one module
 def evaluate(case: dict, workdir: Path) -> tuple[list[Fail], str | None]:
-    """Returns (fails, rejection reason or None)."""
+    """Returns (fails, rejection reason or None) for a "dc" case (one module, one load) or a "dc2" case (two variants of a
+    same-named module, loaded one after the other through ONE `griffe.load_extensions()` result — what `griffe check` does for
+    the old and the new version of a package — each judged against CPython as usual)."""
     import griffe
 
-    code = G.render(case)
     name = f"c18m{os.getpid()}_{next(_counter)}"
     d = workdir / name
     d.mkdir(parents=True)
+    try:
+        if case.get("kind") == "dc":
+            return evaluate_module(case, d, name, None, 0)
+        extensions = call("total", griffe.load_extensions, what="griffe.load_extensions()")
+        fails: list[Fail] = []
+        for k, sub in enumerate((case["first"], case["second"]), 1):
+            sub_fails, rejected = evaluate_module(sub, d / str(k), name, extensions, k)
+            if rejected:
+                return [], rejected
+            fails += sub_fails
+        return fails, None
+    finally:
+        shutil.rmtree(d, ignore_errors=True)
+
+
+def evaluate_module(case: dict, d: Path, name: str, extensions, load_no: int) -> tuple[list[Fail], str | None]:
+    """Write, import (CPython), load (Griffe) and judge one module in directory `d`. load_no: 0 = the only load of the case,
+    1 / 2 = first / second load through a shared extensions object."""
+    import griffe
+
+    code = G.render(case)
+    suffix = "@2nd-load-same-extensions" if load_no == 2 else ""
+    d.mkdir(parents=True, exist_ok=True)
     try:
         path = d / f"{name}.py"
         path.write_text(code)
@@ -131,7 +157,8 @@ def evaluate(case: dict, workdir: Path) -> tuple[list[Fail], str | None]:
             return [], str(r)
         except Exception as exc:  # noqa: BLE001
             raise HarnessError(f"generated module fails in CPython with {exc!r}\n{code}") from exc
-        gmod = call("total", griffe.load, name, search_paths=[str(d)], allow_inspection=False, what="griffe.load")
+        kwargs = {} if extensions is None else {"extensions": extensions}
+        gmod = call("total", griffe.load, name, search_paths=[str(d)], allow_inspection=False, what="griffe.load", **kwargs)
         fails: list[Fail] = []
         for i, cls in enumerate(case["classes"]):
             cname = f"C{i}"
@@ -189,9 +216,13 @@ def evaluate(case: dict, workdir: Path) -> tuple[list[Fail], str | None]:
                         {"cls": i, "want": [list(p) for p in want], "got": [list(p) for p in got]},
                     )
                 )
+        if load_no:
+            for f in fails:
+                f.kind += suffix
+                f.message = f"[load #{load_no} of 2 through one load_extensions() result] " + f.message
+                f.detail = {**(f.detail or {}), "load": load_no}
         return fails, None
     finally:
-        shutil.rmtree(d, ignore_errors=True)
         sys.path_importer_cache.pop(str(d), None)
 
 
@@ -215,7 +246,7 @@ def check_case(case) -> list[Fail]:
 
 
 def check_case_ex(case) -> tuple[list[Fail], str | None]:
-    if case.get("kind") != "dc":
+    if case.get("kind") not in ("dc", "dc2"):
         raise HarnessError(f"unknown case kind {case.get('kind')!r}")
     if _TMP_BASE is not None:
         return evaluate(case, _TMP_BASE)
@@ -233,7 +264,7 @@ def _is_inherited_class_attribute_default(case, fail: Fail) -> bool:
     """Known finding: the only difference is required-ness, CPython sees a default where Griffe sees none, and every such
     parameter is a field declared without value in a decorated class while an ancestor leaves the same name bound to a value
     (dataclasses reads the default with getattr(cls, name), i.e. through inheritance)."""
-    if fail.clause != "init-equal" or not fail.kind.startswith("required:") or not isinstance(fail.detail, dict):
+    if fail.clause != "init-equal" or not fail.kind.startswith("required:") or not isinstance(fail.detail, dict) or "want" not in fail.detail:
         return False
     want, got = fail.detail["want"], fail.detail["got"]
     if [p[:2] for p in want] != [p[:2] for p in got]:
@@ -241,6 +272,8 @@ def _is_inherited_class_attribute_default(case, fail: Fail) -> bool:
     diff = [w[0] for w, g in zip(want, got) if w[2] != g[2]]
     if not diff or any(w[2] or not g[2] for w, g in zip(want, got) if w[2] != g[2]):
         return False
+    if case.get("kind") == "dc2":
+        case = case["first"] if fail.detail.get("load") == 1 else case["second"]
     classes = case["classes"]
     # the class whose constructor is presented, or the ancestor it is inherited from: any decorated class of the module
     culprits = {classes[i]["body"][k]["n"] for i, k in G.inherited_value_fields(case)}
@@ -251,7 +284,13 @@ KNOWN = {SLUG_INHERITED: _is_inherited_class_attribute_default}
 
 
 def _cases(ctx):
-    return G.cases(avoid_inherited_value=SLUG_INHERITED in ctx.known)
+    from hypothesis import strategies as st
+
+    one = G.cases(avoid_inherited_value=SLUG_INHERITED in ctx.known)
+    small = G.cases(max_classes=3, avoid_inherited_value=SLUG_INHERITED in ctx.known)
+    two = st.builds(lambda a, b: {"kind": "dc2", "first": a, "second": b}, small, small)
+    diamond = G.diamond_cases(avoid_inherited_value=SLUG_INHERITED in ctx.known)
+    return st.one_of(one, one, one, one, two, two, diamond)
 
 
 def strategy(ctx):
@@ -273,6 +312,15 @@ def run_shard(ctx) -> None:
         rej = last.get("rejected")
         if rej:
             return None, ["cpython-rejected", "cpython-rejected:" + rej.split(":")[0]], None
+        if case["kind"] == "dc2":
+            steered = case["first"].get("steered", 0) + case["second"].get("steered", 0)
+            if steered:
+                ctx.excluded(SLUG_INHERITED, steered)
+            nt1, l1 = G.stats(case["first"])
+            nt2, l2 = G.stats(case["second"])
+            codes = [G.render(case["first"]), G.render(case["second"])]
+            labels = sorted(set(l1) | set(l2)) + ["history:two-loads-one-extensions-object"]
+            return (codes if (nt1 or nt2) else None), ["accepted", *labels], {"first load": codes[0], "second load": codes[1]}
         if case.get("steered"):
             ctx.excluded(SLUG_INHERITED, case["steered"])
         nt, labels = G.stats(case)
